@@ -845,8 +845,27 @@ func runC13(c *Ctx) {
 						case *ssa.UnOp:
 							walk(x.X, d+1, via)
 						case *ssa.Extract:
+							// result of a helper of the package that prepares the contents: what the helper returns
+							if hc, ok := x.Tuple.(*ssa.Call); ok {
+								if h := hc.Call.StaticCallee(); h != nil && load.RelPkg(h) == "endorse" && h.Blocks != nil {
+									for _, hb := range h.Blocks {
+										if ret, ok := hb.Instrs[len(hb.Instrs)-1].(*ssa.Return); ok && x.Index < len(ret.Results) {
+											walk(ret.Results[x.Index], d+1, via)
+										}
+									}
+									return
+								}
+							}
 							walk(x.Tuple, d+1, via)
 						case *ssa.Call:
+							if h := x.Call.StaticCallee(); h != nil && load.RelPkg(h) == "endorse" && h.Blocks != nil && h.Signature.Results().Len() == 1 {
+								for _, hb := range h.Blocks {
+									if ret, ok := hb.Instrs[len(hb.Instrs)-1].(*ssa.Return); ok && len(ret.Results) == 1 {
+										walk(ret.Results[0], d+1, via)
+									}
+								}
+								return
+							}
 							if bi, ok := x.Call.Value.(*ssa.Builtin); ok && bi.Name() == "append" {
 								for _, a := range x.Call.Args {
 									walk(a, d+1, via)
